@@ -59,7 +59,7 @@ SpanTL(sp) == << SetMin({ c[1] : c \in RangeOf(sp) }), SetMin({ c[2] : c \in Ran
 Localized(cs, sp) == LET tl == SpanTL(sp) IN { <<c[1] - tl[1], c[2] - tl[2], ChAt(cs, c[1], c[2])>> : c \in RangeOf(sp) }
 LastMatch(T, L) == LET idx == { i \in 1..Len(T) : T[i].span \subseteq L } IN IF idx = {} THEN 0 ELSE SetMax(idx)
 MoveFrag(f, tl) == LET dx == CW * tl[1] dy == CH * tl[2] IN
-  IF f.k = "C" THEN [f EXCEPT !.c = <<f.c[1] + dx, f.c[2] + dy>>]
+  IF f.k = "C" THEN [k |-> "C", c |-> <<f.c[1] + dx, f.c[2] + dy>>, r |-> f.r, f |-> FALSE]
   ELSE [f EXCEPT !.s = <<f.s[1] + dx, f.s[2] + dy>>, !.e = <<f.e[1] + dx, f.e[2] + dy>>]
 CatPick(T, cs, sp) ==       \* <<accepted fragments, rest of the span>>
   LET L == Localized(cs, sp) tl == SpanTL(sp) i == LastMatch(T, L) IN
@@ -89,19 +89,22 @@ Mins(fr) == IF fr.k = "P" THEN <<SetMin(PXs(fr)), SetMin(PYs(fr))>>
 Maxs(fr) == IF fr.k = "P" THEN <<SetMax(PXs(fr)), SetMax(PYs(fr))>>
             ELSE IF fr.k = "C" THEN <<fr.c[1] + fr.r, fr.c[2] + fr.r>>
             ELSE <<Max2(fr.s[1], fr.e[1]), Max2(fr.s[2], fr.e[2])>>
-Rank(fr) == IF fr.k = "L" THEN 10 ELSE IF fr.k = "C" THEN 30 ELSE IF fr.k = "A" THEN 40 ELSE 50
+Rank(fr) == IF fr.k = "L" THEN 10 ELSE IF fr.k = "M" THEN 20 ELSE IF fr.k = "C" THEN 30 ELSE IF fr.k = "A" THEN 40 ELSE 50
 BLt(x, z) == x = FALSE /\ z = TRUE
 FragLt(x, z) ==
   IF x.k = "L" /\ z.k = "L"
     THEN PLt(x.s, z.s) \/ (x.s = z.s /\ (PLt(x.e, z.e) \/ (x.e = z.e /\ BLt(x.b, z.b))))
   ELSE IF x.k = "A" /\ z.k = "A"
     THEN PLt(x.s, z.s) \/ (x.s = z.s /\ (PLt(x.e, z.e) \/ (x.e = z.e /\ (x.r < z.r \/ (x.r = z.r /\ (BLt(x.mj, z.mj) \/ (x.mj = z.mj /\ BLt(x.sw, z.sw))))))))
+  ELSE IF x.k = "C" /\ z.k = "C"
+    THEN PLt(Mins(x), Mins(z)) \/ (Mins(x) = Mins(z) /\ (PLt(Maxs(x), Maxs(z)) \/ (Maxs(x) = Maxs(z) /\ (x.r < z.r \/ (x.r = z.r /\ BLt(x.f, z.f))))))
   ELSE IF x.k = "P" /\ z.k = "P"
     THEN x.pts # z.pts /\ (PLt(x.pts[1], z.pts[1]) \/ (x.pts[1] = z.pts[1] /\ (PLt(x.pts[Len(x.pts)], z.pts[Len(z.pts)])
                               \/ (x.pts[Len(x.pts)] = z.pts[Len(z.pts)] /\ Len(x.pts) < Len(z.pts)))))
   ELSE PLt(Mins(x), Mins(z)) \/ (Mins(x) = Mins(z) /\ (PLt(Maxs(x), Maxs(z)) \/ (Maxs(x) = Maxs(z) /\ Rank(x) < Rank(z))))
 Shift(fr, cl) == LET mv(p) == <<p[1] + CW * cl[1], p[2] + CH * cl[2]>> IN
                  IF fr.k = "P" THEN [fr EXCEPT !.pts = [i \in 1..Len(fr.pts) |-> mv(fr.pts[i])]]
+                 ELSE IF fr.k = "C" THEN [fr EXCEPT !.c = mv(fr.c)]
                  ELSE [fr EXCEPT !.s = mv(fr.s), !.e = mv(fr.e)]
 CellFrags(cs, sp, cl) ==
   LET ch == ChAt(cs, cl[1], cl[2])
@@ -118,13 +121,28 @@ SpanFrags(cs, sp) == FoldLeft(LAMBDA lst, cl : lst \o CellFrags(cs, sp, cl), <<>
 \* a text occupies as many cells as the display widths of its characters add up to
 TextWidth(s) == FoldLeft(LAMBDA n, c : n + (IF WideCp(c) THEN 2 ELSE 1), 0, s)
 Touching(l1, l2) == OnSeg(l2.s, l1.s, l1.e) \/ OnSeg(l2.e, l1.s, l1.e) \/ OnSeg(l1.s, l2.s, l2.e) \/ OnSeg(l1.e, l2.s, l2.e)
+\* Line::merge_circle: a bullet whose centre is close to an end of the line (within 3/4 of the cell extent in
+\* the line's direction: squared distances in lattice units) becomes a marker at that end; the line then runs
+\* from its far end to the bullet's centre
+D2(p, q) == (p[1] - q[1]) * (p[1] - q[1]) + (p[2] - q[2]) * (p[2] - q[2])
+Reach2(ln) == IF ln.s[2] = ln.e[2] THEN 36 ELSE IF ln.s[1] = ln.e[1] THEN 144 ELSE 180
+CloseEnd(ln, ci) == D2(ln.e, ci.c) <= Reach2(ln)
+CloseStart(ln, ci) == D2(ln.s, ci.c) <= Reach2(ln)
+CanMergeCircle(ln, ci) == ci.r <= 6 /\ (CloseStart(ln, ci) \/ CloseEnd(ln, ci))
+MergeCircle(ln, ci, cells) ==
+  [k |-> "M", s |-> IF CloseEnd(ln, ci) THEN ln.s ELSE ln.e, e |-> ci.c, b |-> ln.b,
+   em |-> IF ci.f THEN "circle" ELSE IF ci.r >= 4 THEN "big_open_circle" ELSE "open_circle", cells |-> cells]
 FragCan(x, z) ==
-  IF x.k = "L" /\ z.k = "L" THEN Touching(x, z) /\ Collinear(x.s, x.e, z.s) /\ Collinear(x.s, x.e, z.e)
+  IF x.k = "L" /\ z.k = "C" THEN CanMergeCircle(x, z)
+  ELSE IF x.k = "C" /\ z.k = "L" THEN CanMergeCircle(z, x)
+  ELSE IF x.k = "L" /\ z.k = "L" THEN Touching(x, z) /\ Collinear(x.s, x.e, z.s) /\ Collinear(x.s, x.e, z.e)
   ELSE IF x.k = "T" /\ z.k = "T"
     THEN x.cell[2] = z.cell[2] /\ (x.cell[1] + TextWidth(x.s) = z.cell[1] \/ z.cell[1] + TextWidth(z.s) = x.cell[1])
   ELSE FALSE
 FragMrg(x, z) ==
-  IF x.k = "L" THEN [k |-> "L", s |-> PMin(x.s, z.s), e |-> PMax(x.e, z.e), b |-> (x.b \/ z.b), cells |-> x.cells \o z.cells]
+  IF x.k = "L" /\ z.k = "C" THEN MergeCircle(x, z, x.cells \o z.cells)
+  ELSE IF x.k = "C" /\ z.k = "L" THEN MergeCircle(z, x, x.cells \o z.cells)
+  ELSE IF x.k = "L" THEN [k |-> "L", s |-> PMin(x.s, z.s), e |-> PMax(x.e, z.e), b |-> (x.b \/ z.b), cells |-> x.cells \o z.cells]
   ELSE IF x.cell[1] < z.cell[1] THEN [k |-> "T", cell |-> x.cell, s |-> x.s \o z.s, cells |-> x.cells \o z.cells]
   ELSE [k |-> "T", cell |-> z.cell, s |-> z.s \o x.s, cells |-> x.cells \o z.cells]
 Merged(cs, sp) == MergeRec(SpanFrags(cs, sp), FragCan, FragMrg)
@@ -133,8 +151,11 @@ Merged(cs, sp) == MergeRec(SpanFrags(cs, sp), FragCan, FragMrg)
 (* stage 9: contact groups; stage 10: rect endorsement                                     *)
 TextCells(tx) == { <<tx.cell[1] + i, tx.cell[2]>> : i \in 0..(TextWidth(tx.s) - 1) }
 EndTouch(x, z) == x.s = z.s \/ x.e = z.e \/ x.s = z.e \/ x.e = z.s
+TouchCircle(ln, ci) == D2(ln.s, ci.c) < ci.r * ci.r \/ D2(ln.e, ci.c) < ci.r * ci.r
 FragContact(x, z) ==
-  IF x.k = "L" /\ z.k = "L" THEN Touching(x, z)
+  IF x.k = "L" /\ z.k = "C" THEN TouchCircle(x, z)
+  ELSE IF x.k = "C" /\ z.k = "L" THEN TouchCircle(z, x)
+  ELSE IF x.k = "L" /\ z.k = "L" THEN Touching(x, z)
   ELSE IF x.k \in {"L", "A"} /\ z.k \in {"L", "A"} THEN EndTouch(x, z)
   ELSE IF x.k = "T" /\ z.k = "T" THEN \E c1 \in TextCells(x), c2 \in TextCells(z) : c1[2] = c2[2] /\ Adjacent(c1, c2)
   ELSE FALSE
@@ -204,9 +225,10 @@ SpanResult(cs, sp) ==
 (* projection of the real output: <<kind, numbers..., flags>>                              *)
 B01(b) == IF b THEN 1 ELSE 0
 Strip(fr) ==
-  IF fr.k = "L" THEN <<"line", fr.s[1], fr.s[2], fr.e[1], fr.e[2], B01(fr.b)>>
+  IF fr.k = "L" THEN <<"line", fr.s[1], fr.s[2], fr.e[1], fr.e[2], B01(fr.b), "">>
+  ELSE IF fr.k = "M" THEN <<"line", fr.s[1], fr.s[2], fr.e[1], fr.e[2], B01(fr.b), "end_marked_" \o fr.em>>
   ELSE IF fr.k = "A" THEN <<"path", fr.s[1], fr.s[2], fr.r, B01(fr.sw), fr.e[1], fr.e[2], B01(fr.mj)>>
-  ELSE IF fr.k = "C" THEN <<"circle", fr.c[1], fr.c[2], fr.r>>
+  ELSE IF fr.k = "C" THEN <<"circle", fr.c[1], fr.c[2], fr.r, B01(fr.f)>>
   ELSE IF fr.k = "P" THEN <<"polygon">> \o FoldLeft(LAMBDA lst, q : lst \o <<q[1], q[2]>>, <<>>, fr.pts)
   ELSE IF fr.k = "R" THEN <<"rect", fr.s[1], fr.s[2], fr.e[1] - fr.s[1], fr.e[2] - fr.s[2], fr.r, B01(fr.b)>>
   ELSE <<"text", fr.cell[1] * CW + 2, fr.cell[2] * CH + 12, fr.s>>
